@@ -143,11 +143,7 @@ extern "C" void libcsd_verif_point(const char *where, long value) {
   if (st == 0) return;
   uint64_t n = g_pcount.fetch_add(1);
   uint64_t r = mix(g_perturb.seed * 1315423911ULL + n * 2654435761ULL + (uint64_t)where[0] * 131 + (uint64_t)where[2]);
-  if ((st == 2 || st == 3) && tl_phase == 1 && !strcmp(where, "q.empty") && value == 1) {
-    // the predicate is about to be false: widen the window before the thread blocks
-    std::this_thread::sleep_for(std::chrono::microseconds(1500 + r % 1500));
-    return;
-  }
+  (void)value;
   if (st == 1 || st == 3) {
     if (r % 4 == 0) std::this_thread::sleep_for(std::chrono::microseconds(r % 300));
     else if (r % 4 == 1) std::this_thread::yield();
@@ -549,6 +545,22 @@ static void runLogSeq(const Case &c) {
   }
   delete ls;
 }
+
+#if !defined(__SANITIZE_THREAD__)
+// The window in which a wake-up can be lost lies between the wait predicate
+// returning false and the thread being registered as a waiter inside
+// pthread_cond_wait. Widen exactly that window: the caller still owns the mutex.
+#include <dlfcn.h>
+extern "C" int pthread_cond_wait(pthread_cond_t *cnd, pthread_mutex_t *mtx) {
+  typedef int (*fn_t)(pthread_cond_t *, pthread_mutex_t *);
+  static fn_t real = (fn_t)dlsym(RTLD_NEXT, "pthread_cond_wait");
+  if (tl_phase == 1 && (g_perturb.strategy == 2 || g_perturb.strategy == 3)) {
+    uint64_t r = mix(g_perturb.seed + g_pcount.fetch_add(1));
+    std::this_thread::sleep_for(std::chrono::microseconds(800 + r % 1500));
+  }
+  return real(cnd, mtx);
+}
+#endif
 
 static void runPool(const Case &c) {
   for (auto &op : c.ops) {
